@@ -27,7 +27,7 @@ func main() {
 	verif := flag.String("verif", "/verif", "verif directory (evidence, known findings)")
 	prop := flag.String("property", "", "property id (C01..C17) or 'all'")
 	tier := flag.String("tier", "quick", "quick|thorough")
-	dump := flag.String("dump", "", "debug dumps: g4 | funcs")
+	dump := flag.String("dump", "", "debug dumps: g4 | funcs | ssa:<substring of a function name>")
 	noEvidence := flag.Bool("no-evidence", false, "do not write evidence/replay files (used for scratch-copy variants)")
 	flag.Parse()
 	if t := os.Getenv("VERIF_TIER"); t == "quick" || t == "thorough" {
@@ -157,6 +157,15 @@ func doDump(w *World, what string) {
 	case "funcs":
 		for _, f := range w.srcFuncs {
 			fmt.Println(fnKey(f))
+		}
+	default:
+		// ssa:<substring>: the SSA form of every repository function whose name contains the substring
+		if sub, ok := strings.CutPrefix(what, "ssa:"); ok {
+			for _, f := range w.repoFuncsWithBodies() {
+				if strings.Contains(f.String(), sub) {
+					f.WriteTo(os.Stdout)
+				}
+			}
 		}
 	}
 }
